@@ -212,7 +212,7 @@ func decodeResponse(s *schemawalk.Schema, frame []byte) (res string) {
 	select {
 	case r := <-done:
 		return r
-	case <-time.After(20 * time.Second):
+	case <-time.After(8 * time.Second): // a decode takes microseconds; 1 GiB of zeroed allocation well under a second
 		return "hang"
 	}
 }
